@@ -68,7 +68,7 @@ def mutants_of(src, fn):
         out.append(("%s at line %d: `%s` -> `%s`" % (what, node.lineno, src[a:b].strip()[:60], text.strip()[:60]), src[:a] + text + src[b:]))
 
     own = []
-    stack = list(fn.body)
+    stack = [n for n in fn.body if not isinstance(n, (ast.FunctionDef, ast.AsyncFunctionDef, ast.ClassDef))]
     while stack:
         n = stack.pop()
         own.append(n)
